@@ -1,7 +1,7 @@
 (* C24: a boolean checker that two parser models (Model/PegSyntax.v grammars, as dumped from the
    live parsers) accept the same inputs under the Arpeggio interpreter model Model/Peg.v.
 
-   [peg_equiv_diffs seeds g1 g2] computes a set R of node pairs (i, j, strong) by a synchronized
+   [peg_equiv_diffs ne seeds g1 g2] computes a set R of node pairs (i, j, strong) by a synchronized
    traversal from the two top nodes (plus the seed pairs), and returns the pairs of R whose LOCAL
    check fails.  The local check of a pair only looks at the two nodes and asks that the pairs of
    their children are in R, so its soundness does not depend on how R was computed
@@ -9,7 +9,9 @@
 
    What is ignored (acceptance-irrelevant in the interpreter, proved): node ids, rule names, the
    [root] flag (NonTerminal creation), unit wrapper sequences (textX's [__asgn_plain] around an
-   assignment's right-hand side), one level of sequence nesting inside a sequence.
+   assignment's right-hand side), one level of sequence nesting inside a sequence, and the notation
+   `x (s x)*` (first grammar) for `x+[s]` (second grammar) when x is always truthy on success ([atrue],
+   which may use the explicit oracle hypothesis that the regexes listed in [ne] never match empty).
    What is kept: kinds, texts of string matches, oracle ids of regex matches (= pattern text and
    flags, the translator shares the numbering), order and number of children, separators,
    suppression, and the None/falsy-result quirks: a wrapper is transparent in an ordered choice /
@@ -73,10 +75,57 @@ Fixpoint efree (g : grammar) (d : nat) (i : nat) : bool :=
 
 Definition EDEPTH : nat := 8.
 
+(* [atrue g ne d i]: whenever node i succeeds its value is truthy (depth-bounded, fail closed).
+   [ne] lists the oracle ids assumed never to match the empty string (an explicit hypothesis of the
+   soundness theorem: forall o in ne, forall p, orc o p <> Some 0).  An ordered choice that passes the
+   pair check always returns a non-empty list. *)
+Fixpoint atrue (g : grammar) (ne : list nat) (d : nat) (i : nat) : bool :=
+  match get_node g i with
+  | None => false
+  | Some nd =>
+    if n_suppress nd then false else
+    match n_kind nd with
+    | KStr _ _ | KEOF | KChoice => true
+    | KRegex o => existsb (Nat.eqb o) ne
+    | KSeq => match d with 0 => false | S d' => existsb (atrue g ne d') (n_kids nd) end
+    | KPlus => match d with
+               | 0 => false
+               | S d' => match n_kids nd with [e] => atrue g ne d' e | _ => false end
+               end
+    | _ => false
+    end
+  end.
+
+(* node st is a plain `( s x )*`: ZeroOrMore without separator over a plain two-element sequence *)
+Definition star_sep (g : grammar) (st : nat) : option (nat * nat) :=
+  match get_node g st with
+  | Some nd =>
+    match n_kind nd, n_kids nd, n_sep nd with
+    | KStar, [q], None =>
+      if plain nd && negb (n_suppress nd) then
+        match seq_kids g q with Some [s; x] => Some (s, x) | _ => None end
+      else None
+    | _, _, _ => None
+    end
+  | None => None
+  end.
+
+(* node y is a plain `e+[t]`: OneOrMore with a separator *)
+Definition plus_sep (g : grammar) (y : nat) : option (nat * nat) :=
+  match get_node g y with
+  | Some nd =>
+    match n_kind nd, n_kids nd, n_sep nd with
+    | KPlus, [e], Some t => if plain nd && negb (n_suppress nd) then Some (e, t) else None
+    | _, _, _ => None
+    end
+  | None => None
+  end.
+
 Definition cho_ok (g : grammar) (nd : node) : bool := forallb (efree g EDEPTH) (n_kids nd).
 
 Section Check.
 Variables g1 g2 : grammar.
+Variable ne : list nat.
 Variable R : list (nat * nat * bool).
 
 Definition pin_any (i j : nat) : bool :=
@@ -92,9 +141,21 @@ Fixpoint zip_in (c : bool) (l1 l2 : list nat) : bool :=
   | _, _ => false
   end.
 
-(* children of two sequences: pairwise in R, where one child of the SECOND grammar's sequence that is
-   itself a plain sequence may stand for a segment of children of the first one (wrappers and nesting are
-   recognised on the second grammar only; swap the arguments for the other direction) *)
+(* `x (s x')*` in the first grammar against `e+[t]` in the second: x, x' paired with e, s with t, and x, x'
+   always truthy on success (otherwise OneOrMore stops at a falsy element while the other form goes on) *)
+Definition sepform (x : nat) (t1 : list nat) (y : nat) : bool :=
+  match t1 with
+  | st :: _ =>
+    match star_sep g1 st, plus_sep g2 y with
+    | Some (s, x'), Some (e, t) =>
+      pin_any x e && pin_any x' e && pin_any s t && atrue g1 ne EDEPTH x && atrue g1 ne EDEPTH x'
+    | _, _ => false
+    end
+  | [] => false
+  end.
+
+(* children of two sequences: pairwise in R, where one child that is itself a plain sequence may stand
+   for a segment of children of the other side (either side) *)
 Fixpoint seq_align (n : nat) (l1 l2 : list nat) : bool :=
   match n with
   | 0 => false
@@ -103,9 +164,15 @@ Fixpoint seq_align (n : nat) (l1 l2 : list nat) : bool :=
     | [], [] => true
     | x :: t1, y :: t2 =>
       (pin_any x y && seq_align n' t1 t2)
+      || sepform x t1 y && seq_align n' (tl t1) t2
       || match seq_kids g2 y with
          | Some ks => (length ks <=? length l1) && zip_in false (firstn (length ks) l1) ks
                       && seq_align n' (skipn (length ks) l1) t2
+         | None => false
+         end
+      || match seq_kids g1 x with
+         | Some ks => (length ks <=? length l2) && zip_in false ks (firstn (length ks) l2)
+                      && seq_align n' t1 (skipn (length ks) l2)
          | None => false
          end
     | _, _ => false
@@ -123,6 +190,16 @@ Definition struct_ok (a b : node) : bool :=
   plain a && plain b && Bool.eqb (n_suppress a) (n_suppress b) &&
   match n_kind a, n_kind b with
   | KSeq, KSeq => seq_align (S (length (n_kids a) + length (n_kids b))) (n_kids a) (n_kids b)
+  | KSeq, KPlus =>
+    match n_kids a, n_kids b, n_sep b with
+    | [x; st], [e], Some t =>
+      match star_sep g1 st with
+      | Some (s, x') =>
+        pin_any x e && pin_any x' e && pin_any s t && atrue g1 ne EDEPTH x && atrue g1 ne EDEPTH x'
+      | None => false
+      end
+    | _, _, _ => false
+    end
   | KChoice, KChoice => zip_in true (n_kids a) (n_kids b) && cho_ok g1 a && cho_ok g2 b
   | KOpt, KOpt =>
     match n_kids a, n_kids b with
@@ -145,6 +222,10 @@ Definition local_ok (p : nat * nat * bool) : bool :=
       struct_ok a b
       || match unit_kid g2 j with
          | Some y => pin_any i y && (negb c || efree g1 EDEPTH i)
+         | None => false
+         end
+      || match unit_kid g1 i with
+         | Some x => pin_any x j && (negb c || efree g2 EDEPTH j)
          | None => false
          end
     | _, _ => false
@@ -189,6 +270,41 @@ Definition expand (g : grammar) (l : list nat) : list nat :=
 Definition zipc (c : bool) (l1 l2 : list nat) : list (nat * nat * bool) :=
   map (fun p => (fst p, snd p, c)) (combine l1 l2).
 
+(* children pairs of two sequences when the first one uses `x (s x)*` where the second has `e+[t]` *)
+Fixpoint align_props (n : nat) (l1 l2 : list nat) : option (list (nat * nat * bool)) :=
+  match n with
+  | 0 => None
+  | S n' =>
+    match l1, l2 with
+    | [], [] => Some []
+    | x :: t1, y :: t2 =>
+      let default := match align_props n' t1 t2 with Some l => Some ((x, y, false) :: l) | None => None end in
+      match t1 with
+      | st :: t1' =>
+        match star_sep g1 st, plus_sep g2 y with
+        | Some (s, x'), Some (e, t) =>
+          match align_props n' t1' t2 with
+          | Some l => Some ((x, e, false) :: (x', e, false) :: (s, t, false) :: l)
+          | None => None
+          end
+        | _, _ => default
+        end
+      | [] => default
+      end
+    | _, _ => None
+    end
+  end.
+
+Definition sep_props (a b : node) : list (nat * nat * bool) :=
+  match n_kind a, n_kind b, n_kids a, n_kids b, n_sep b with
+  | KSeq, KPlus, [x; st], [e], Some t =>
+    match star_sep g1 st with
+    | Some (s, x') => [(x, e, false); (x', e, false); (s, t, false)]
+    | None => []
+    end
+  | _, _, _, _, _ => []
+  end.
+
 Definition proposals (p : nat * nat * bool) : list (nat * nat * bool) :=
   match p with
   | (i, j, _) =>
@@ -196,16 +312,21 @@ Definition proposals (p : nat * nat * bool) : list (nat * nat * bool) :=
     | Some a, Some b =>
       let k1 := n_kids a in let k2 := n_kids b in
       let seps := match n_sep a, n_sep b with Some x, Some y => [(x, y, false)] | _, _ => [] end in
-      let units := match unit_kid g2 j with
-                   | Some y => [(i, y, false)]
-                   | None => []
+      let units := match unit_kid g2 j, unit_kid g1 i with
+                   | Some y, _ => [(i, y, false)]
+                   | None, Some x => [(x, j, false)]
+                   | None, None => []
                    end in
       if same_class (n_kind a) (n_kind b) then
         let c := child_ctx (n_kind a) in
         (if Nat.eqb (length k1) (length k2) then zipc c k1 k2
          else if Nat.eqb (length k1) (length (expand g2 k2)) then zipc c k1 (expand g2 k2)
-         else units) ++ seps
-      else units
+         else if Nat.eqb (length (expand g1 k1)) (length k2) then zipc c (expand g1 k1) k2
+         else match n_kind a with
+              | KSeq => match align_props (S (length k1)) k1 k2 with Some l => l | None => [] end
+              | _ => []
+              end ++ units) ++ seps
+      else sep_props a b ++ units
     | _, _ => []
     end
   end.
@@ -238,13 +359,14 @@ Definition reach_all (seeds : list (nat * nat * bool)) : list (nat * nat * bool)
 End Reach.
 
 (* the differing pairs; the top pair stands for a failed frame check *)
-Definition peg_equiv_diffs (seeds : list (nat * nat * bool)) (g1 g2 : grammar) : list (nat * nat * bool) :=
+Definition peg_equiv_diffs (ne : list nat) (seeds : list (nat * nat * bool)) (g1 g2 : grammar)
+  : list (nat * nat * bool) :=
   let R := reach_all g1 g2 seeds in
   (if frame_ok g1 g2 R then [] else [(g_top g1, g_top g2, false)])
-  ++ filter (fun p => negb (local_ok g1 g2 R p)) R.
+  ++ filter (fun p => negb (local_ok g1 g2 ne R p)) R.
 
-Definition peg_equiv_check (seeds : list (nat * nat * bool)) (g1 g2 : grammar) : bool :=
-  match peg_equiv_diffs seeds g1 g2 with [] => true | _ => false end.
+Definition peg_equiv_check (ne : list nat) (seeds : list (nat * nat * bool)) (g1 g2 : grammar) : bool :=
+  match peg_equiv_diffs ne seeds g1 g2 with [] => true | _ => false end.
 
 (* ---------------------------------------------------------------- reporting by labels *)
 Definition label_of (labs : list (list N)) (i : nat) : list N := nth i labs [63]%N.
@@ -281,6 +403,18 @@ Definition accepts (o : outcome) : bool := match o with Parsed _ => true | _ => 
 Require Import Coq.Strings.String Coq.Strings.Ascii.
 Definition sN (s : string) : list N := map N_of_ascii (list_ascii_of_string s).
 
+(* regular expressions that cannot match the empty string (oracle hypothesis of the soundness theorem, checked
+   per run on every oracle table by tools/props/c24.py and by re.match('') in the translator) *)
+Definition textx_nonempty_patterns : list (list N) := map sN [ "\w+" ]%string.
+
+(* oracle ids of the shared table whose pattern text is in the list *)
+Definition ne_of (oracles : list (list N * nat)) (pats : list (list N)) : list nat :=
+  (fix go (l : list (list N * nat)) (k : nat) : list nat :=
+     match l with
+     | [] => []
+     | (p, _) :: t => if mem_str p pats then k :: go t (S k) else go t (S k)
+     end) oracles 0.
+
 (* extra starting points of the traversal below differing pairs (untrusted: any R is sound) *)
 Definition textx_seeds : list (list N * list N) :=
   map (fun p => (sN (fst p), sN (snd p)))
@@ -306,8 +440,8 @@ Definition textx_accepted_diffs : list (list N * list N) :=
     ("rrel_expression.0.0", "RRELExpression.0.0");
     (* FINDING rrel-fixed-name: ['n'~attr] is missing in textx.tx *)
     ("rrel_navigation", "RRELNavigation");
-    (* NOTATION separator: x (sep x)*  /  (x sep)* x   vs   x+[sep] *)
-    ("rule_params", "TextxRule.1.0"); ("textx_rule_body", "Choice.0"); ("choice", "Choice.0");
+    (* NOTATION separator: (x sep)* x  vs  x+[sep]  (the two forms differ as nodes - after `a,` one fails, the
+       other succeeds on `a` - and agree only in their context; x (sep x)* vs x+[sep] is decided by the checker) *)
     ("rrel_sequence", "RRELSequence.0"); ("rrel_path.0", "RRELPath.0");
     (* NOTATION terminals: two-alternative string_value vs the STRING regex; one regex /.../ vs '/' regex '/' *)
     ("string_value", "STRING"); ("str_match", "STRING"); ("re_match", "ReMatch") ]%string.
